@@ -27,6 +27,13 @@ class MetaOnly(Suite):
                 tree.sort(key=lambda e: gen.pathkey(bytes.fromhex(e["p"])))
                 seen = set()
                 tree = [e for e in tree if not (e["p"] in seen or seen.add(e["p"]))]
+            pair = None
+            if big and rng.random() < 0.7 and not any(bytes.fromhex(e["p"]) < b"!src" or bytes.fromhex(e["p"]) > b"~zlink" for e in tree):
+                # a selected file at the very start of a long stream and a selected hard link to it at the very end: the content of the
+                # source has long been requested when the link is announced
+                pair = (hx(b"!src"), hx(b"~zlink"))
+                tree = [{"p": pair[0], "t": "file", "size": rng.choice([5, 40000]), "uid": 0, "gid": 0, "mt": gen.MTIMES[1], "mode": 0o644}] + tree + \
+                       [{"p": pair[1], "t": "hardlink", "ln": pair[0]}]
             if rng.random() < 0.1 and tree:
                 # one stat larger than a 32 KiB buffer chunk
                 # (ext4 cannot store such xattrs: the entry is kept out of the selection, it only has to be listed)
@@ -84,6 +91,8 @@ class MetaOnly(Suite):
                     sel.append(by[near]["ln"])
             if bigp is not None:
                 sel = [p for p in sel if p != bigp and not (by[p]["t"] == "hardlink" and by[p]["ln"] == bigp)]
+            if pair is not None:
+                sel = [p for p in sel if p not in pair] + list(pair)
             # (a hard link whose source is the listing name or lies below it cannot be selected: the statement asks for selectors that
             # select the link source too, and nothing can be materialised at or below that name)
             sel = [p for p in sel if not (by[p]["t"] == "hardlink" and (by[p]["ln"] == META or by[p]["ln"].startswith(META + "2f")))]
